@@ -54,7 +54,7 @@ def _norm(x):
 
 class Cfg:
     def __init__(self, seed=0, slots=("A", "B"), max_objs=2, actions=(), clock=False,
-                 queries=("name",), numeric=False, use_iter=True, use_exit=True, max_denies=0):
+                 queries=("name",), numeric=False, use_iter=True, use_exit=True, max_denies=0, oneshot=False):
         self.seed = seed
         base = 1000 + (seed % 9) * 13
         self.pid = {"A": base, "B": base + 7, "C": base + 19}
@@ -66,6 +66,7 @@ class Cfg:
         self.numeric = numeric
         self.use_iter = use_iter
         self.use_exit = use_exit
+        self.oneshot = oneshot            # enter/exit of a oneshot() block on object 0
         self.max_denies = max_denies      # permission faults: /proc/<pid>/stat of ONE incarnation becomes unreadable
         self.btime0 = 1700000000 + (seed % 5) * 3600
         self.j0 = 500000 + (seed % 7) * 1000
@@ -88,6 +89,7 @@ class Exec:
         self.viols = []
         self.label = ""
         self.ndeny = 0
+        self.cms = {}         # object index -> entered oneshot() context manager
 
     # ------------------------------------------------------------ enabled
     def enabled(self):
@@ -118,6 +120,8 @@ class Exec:
         for i in range(len(self.objs)):
             for q in c.queries:
                 ev.append(["q", i, q])
+        if c.oneshot and self.objs:
+            ev.append(["os_exit", 0] if 0 in self.cms else ["os_enter", 0])
         if c.use_iter:
             ev.append(["iter"])
         if c.clock:
@@ -157,6 +161,16 @@ class Exec:
         elif k == "deny":
             w.procs[c.pid[ev[1]]].denied.add("stat")
             self.ndeny += 1
+        elif k == "os_enter":
+            cm = self.objs[ev[1]].oneshot()
+            out = outcome(cm.__enter__)
+            self.cms[ev[1]] = cm
+            if out[0] != "ok":
+                self.viol("oneshot-enter-raised", repr(out))
+        elif k == "os_exit":
+            out = outcome(self.cms.pop(ev[1]).__exit__, None, None, None)
+            if out[0] != "ok":
+                self.viol("oneshot-exit-raised", repr(out))
         elif k == "tick100":
             w.tick(100)
         elif k == "step-":
@@ -304,7 +318,11 @@ class Exec:
 
         def od(o, uid):
             d = {"pid": o.pid, "uid": rel.get(uid), "gone": o._gone, "reused": o._pid_reused,
-                 "name": o._name, "hash": o._hash is not None, "exit": repr(o._exitcode) if o._exitcode is not ps._SENTINEL else None}
+                 "name": o._name, "hash": o._hash is not None, "blk": hasattr(o, "_cache"),
+                 "pcache": sorted(fn.__name__ for fn in getattr(o._proc, "_cache", {})),
+                 "pcache_cur": (lambda c_, p_: None if not c_ or p_ is None else
+                                any(isinstance(v, dict) and v.get("create_time") == str(p_.start).encode() for v in c_.values()))(
+                                    getattr(o._proc, "_cache", None), w.procs.get(o.pid)), "exit": repr(o._exitcode) if o._exitcode is not ps._SENTINEL else None}
             if c.numeric:
                 d["ident"] = None if o._ident[1] is None else round(o._ident[1] - c.btime0, 2)
                 d["ct"] = None if o._create_time is None else round(o._create_time - c.btime0, 2)
